@@ -45,7 +45,79 @@ def _cases():
                      {'k': 'function', 'name': 'identfilter_object_foo_method', 'ret': VOID, 'params': [['self', ['ptr', ['named', 'identfilter_object_t']]]], 'file': 'identfilter.h', 'line': 8},
                      {'k': 'function', 'name': 'identfilter_object_free', 'ret': VOID, 'params': [['self', ['ptr', ['named', 'identfilter_object_t']]]], 'file': 'identfilter.h', 'line': 9}]}},
         _typedefs_case(tests),
+        _gettype_case(tests),
+        _bar_case(tests),
     ]
+
+
+def _bar_case(tests):
+    """tests/scanner/barapp.h: --accept-unprefixed, struct tags equal to the typedef names, a
+    class (MutterWindow) whose identifier does not carry the namespace prefix."""
+    h, c = 'barapp.h', 'barapp.c'
+
+    def cls(name, typedef_line, inst, klass):
+        return [
+            {'k': 'typedef_struct_fwd', 'name': name, 'tag': name, 'file': h, 'line': typedef_line},
+            {'k': 'typedef_struct_fwd', 'name': name + 'Class', 'tag': name + 'Class', 'file': h, 'line': typedef_line + 1},
+            {'k': 'struct_def', 'tag': name, 'members': [{'name': 'parent_instance', 'type': ['named', 'GObject']}], 'file': h, 'line': inst[0], 'end': inst[1]},
+            {'k': 'struct_def', 'tag': name + 'Class', 'members': [{'name': 'parent_class', 'type': ['named', 'GObjectClass']}], 'file': h, 'line': klass[0], 'end': klass[1]},
+        ]
+    decls = [
+        {'k': 'function_macro', 'name': 'BAR_BAZ', 'params': ['object'], 'file': h, 'line': 7},
+        {'k': 'function_macro', 'name': 'BAR_IS_BAZ', 'params': ['object'], 'file': h, 'line': 8},
+    ] + cls('BarBaz', 10, (13, 16), (18, 21)) + [
+        {'k': 'function', 'name': 'bar_baz_get_type', 'ret': ['named', 'GType'], 'params': [], 'file': h, 'line': 24},
+        {'k': 'function', 'name': 'bar_app_func', 'ret': ['void'], 'params': [], 'file': h, 'line': 28},
+        {'k': 'function', 'name': 'bar_app_func2', 'ret': ['void'], 'params': [['x', ['basic', 'int']], ['y', ['basic', 'double']]], 'file': h, 'line': 31},
+        {'k': 'function_macro', 'name': 'MUTTER_WINDOW', 'params': ['object'], 'file': h, 'line': 39},
+        {'k': 'function_macro', 'name': 'MUTTER_IS_WINDOW', 'params': ['object'], 'file': h, 'line': 40},
+    ] + cls('MutterWindow', 42, (45, 48), (50, 53)) + [
+        {'k': 'function', 'name': 'mutter_window_get_type', 'ret': ['named', 'GType'], 'params': [], 'file': h, 'line': 56},
+        {'k': 'function', 'name': 'mutter_window_func', 'ret': ['void'],
+         'params': [['window', ['ptr', ['named', 'MutterWindow']]], ['v', ['named', 'guint']]], 'file': h, 'line': 59},
+    ]
+    dump = {'bar_baz_get_type': '<class name="BarBaz" get-type="bar_baz_get_type" parents="GObject"/>',
+            'mutter_window_get_type': '<class name="MutterWindow" get-type="mutter_window_get_type" parents="GObject"/>'}
+    return {'name': 'bar', 'expected': os.path.join(tests, 'Bar-1.0-expected.gir'),
+            'blank': [b' shared-library="libbarapp-1.0.so"', b' shared-library=""'],
+            'job': {'ns': 'Bar', 'version': '1.0', 'id_prefixes': [], 'sym_prefixes': [],
+                    'includes': ['GObject-2.0'], 'program': 'bin/dumper', 'error_quarks': {}, 'dump': dump,
+                    'options': ['--quiet', '--no-libtool', '--reparse-validate', '--warn-all', '--warn-error', '--pkg=gobject-2.0',
+                                '--accept-unprefixed', '--doc-format=gi-docgen'],
+                    'file_order': [c, h], 'order_before': [], 'deps': [], 'decls': decls, 'comments': []}}
+
+
+def _gettype_case(tests):
+    """tests/scanner/gettype.[ch]: a GObject class through the dump, function macros, functions
+    that look like but are not get_type functions, comment blocks taken verbatim from gettype.c."""
+    h, c = 'gettype.h', 'gettype.c'
+    src = open(os.path.join(tests, c)).read().split('\n')
+
+    def comment(first, last):
+        return ['\n'.join(src[first - 1:last]), c, first]
+    OBJP = ['ptr', ['named', 'GetTypeObject']]
+    decls = [
+        {'k': 'function_macro', 'name': 'GETTYPE_OBJECT', 'params': ['object'], 'file': h, 'line': 9},
+        {'k': 'function_macro', 'name': 'GETTYPE_IS_OBJECT', 'params': ['object'], 'file': h, 'line': 10},
+        {'k': 'typedef_struct_fwd', 'name': 'GetTypeObject', 'tag': '_GetTypeObject', 'file': h, 'line': 12},
+        {'k': 'typedef_struct_fwd', 'name': 'GetTypeObjectClass', 'tag': '_GetTypeObjectClass', 'file': h, 'line': 13},
+        {'k': 'struct_def', 'tag': '_GetTypeObject', 'members': [{'name': 'parent_instance', 'type': ['named', 'GObject']}], 'file': h, 'line': 14, 'end': 17},
+        {'k': 'struct_def', 'tag': '_GetTypeObjectClass', 'members': [{'name': 'parent_class', 'type': ['named', 'GObjectClass']}], 'file': h, 'line': 19, 'end': 22},
+        {'k': 'function', 'name': 'gettype_object_get_type', 'ret': ['named', 'GType'], 'params': [], 'file': h, 'line': 25},
+        {'k': 'function', 'name': 'gettype_object_new', 'ret': OBJP, 'params': [], 'file': h, 'line': 28},
+        {'k': 'function', 'name': 'gettype_object_nonmeta1_get_type', 'ret': ['named', 'GType'], 'params': [['obj', OBJP]], 'file': h, 'line': 32},
+        {'k': 'function', 'name': 'gettype_object_nonmeta2_get_type', 'ret': ['named', 'gboolean'], 'params': [], 'file': h, 'line': 35},
+        {'k': 'function', 'name': 'gettype_object_nonmeta_get_gtype', 'ret': ['named', 'gboolean'], 'params': [], 'file': h, 'line': 38},
+    ]
+    fn = 'gettype_object_get_type'
+    return {'name': 'gettype', 'expected': os.path.join(tests, 'GetType-1.0-expected.gir'),
+            'blank': [b' shared-library="libgettype-1.0.so"', b' shared-library=""'],
+            'job': {'ns': 'GetType', 'version': '1.0', 'id_prefixes': ['GetType'], 'sym_prefixes': ['gettype'],
+                    'includes': ['GObject-2.0'], 'program': 'bin/dumper', 'error_quarks': {},
+                    'dump': {fn: '<class name="GetTypeObject" get-type="%s" parents="GObject"/>' % fn},
+                    'options': ['--quiet', '--no-libtool', '--reparse-validate', '--pkg=gobject-2.0', '--c-include=gettype.h'],
+                    'file_order': [c, h], 'order_before': [], 'deps': [], 'decls': decls,
+                    'comments': [comment(23, 31), comment(38, 45), comment(52, 59)]}}
 
 
 def _typedefs_case(tests):
